@@ -12,7 +12,14 @@ func main() { hx.Main(run) }
 
 func run(c *hx.Ctx) {
 	c.Imports = "SignalClient.Run"
+	c.ShardSize = 25
 	switch c.Prop {
+	case "C19":
+		c19(c)
+	case "C21":
+		c21(c)
+	case "C23":
+		c23(c)
 	case "probe":
 		probe(c)
 	default:
